@@ -392,3 +392,39 @@ func longLoopCases() []*scen.Scenario {
 	}
 	return out
 }
+
+// lateInnerEdgeCases: an inner flow gets a node's FIRST outgoing edge only after it has been wired into its parent
+// (and has run once): the inner flow is the flow object it is, not a copy taken at wiring time — its next run follows
+// the new edge, nested 1..3 levels deep.
+func lateInnerEdgeCases() []*scen.Scenario {
+	var out []*scen.Scenario
+	for kind := 0; kind < scen.NumScriptedKinds; kind++ {
+		for depth := 0; depth <= 2; depth++ {
+			two := func(p string) []scen.Visit {
+				return []scen.Visit{{FirstOK: 1, Post: p}, {FirstOK: 1, Post: p}, {FirstOK: 1, Post: p}}
+			}
+			nodes := []scen.NodeSpec{
+				{Kind: kind, N: 1, Visits: two("go")},
+				{Kind: scen.KPlain, N: 1, Visits: two("go")},
+				{Kind: scen.KBase, N: 1, Visits: two("fin")},
+				{Kind: scen.KFlow, N: 1, Flow: &scen.FlowSpec{Start: 0, Conns: []scen.Conn{{From: 0, Action: "go", To: 1}}}},
+				{Kind: scen.KPlain, N: 1, Visits: two("end")},
+				{Kind: scen.KFlow, N: 1, Flow: &scen.FlowSpec{Start: 3, Conns: []scen.Conn{{From: 3, Action: "go", To: 4}, {From: 3, Action: "fin", To: 4}}}},
+			}
+			if depth > 0 { // the inner flow is a connection TARGET of its parent (not its start node)
+				nodes[5].Flow = &scen.FlowSpec{Start: 4, Conns: []scen.Conn{{From: 4, Action: "end", To: 3}}}
+			}
+			root := 5
+			for d := 1; d < depth; d++ {
+				nodes = append(nodes, scen.NodeSpec{Kind: scen.KFlow, N: 1, Flow: &scen.FlowSpec{Start: root}})
+				root = len(nodes) - 1
+			}
+			sc := &scen.Scenario{Nodes: nodes, Root: root, Runs: 3, UseFlowRun: depth == 1,
+				Rewire: []scen.Rewire{{AfterRun: 0, Flow: 3, Conn: scen.Conn{From: 1, Action: "go", To: 2}}, {AfterRun: 1, Flow: 3, Conn: scen.Conn{From: 2, Action: "fin", To: 0}}}}
+			// run 2: a b c a(end of script -> EndAction) ...: keep the third run finite: c's third visit ends the inner flow
+			sc.Nodes[2].Visits[1] = scen.Visit{FirstOK: 1, Post: "stop"}
+			out = append(out, sc)
+		}
+	}
+	return out
+}
